@@ -117,3 +117,9 @@ package selftest
 //@ func lenBits
 //@   requires j >= 2
 //@   ensures topbit: r0 >= 1 && r0 <= 64 && (j-1)&(uint64(1)<<uint(r0-1)) != 0
+
+//@ func orderDeferredOK
+//@   order cl_flushed_before_sync: s.cl.Flush before s.cl.Sync
+
+//@ func orderDeferredBad
+//@   order cl_flushed_before_sync: s.cl.Flush before s.cl.Sync
